@@ -11,6 +11,8 @@ import ClairModel.Proofs.TarFSExtract
 import ClairModel.Proofs.TarFSReject
 import ClairModel.Proofs.TarFSDir
 import ClairModel.Proofs.TarFSLayer
+import ClairModel.Proofs.TarFSThrough
+import ClairModel.Proofs.TarFSWitness
 
 -- every variable of a property statement is bound explicitly: a misspelt name is an error, not a new variable
 set_option autoImplicit false
@@ -382,5 +384,106 @@ theorem layer_files_sound (fs : FS) (paths : List Bytes) (cap : Nat) (l : List (
     (h : layerFiles fs paths cap = .found l) :
     ∀ x ∈ l, x.1 ∈ paths.map normalizeIn ∧ readFileFS fs x.1 = .ok x.2 :=
   layerFiles_sound fs paths cap l h
+
+/-- Links in directory position, what the code does (all views, all names):
+    when the directory part of a new member name `p` is the key of a symbolic
+    link whose stored target is the key of a directory inode `j`, `add`
+    registers the member under the literal name `p` and makes it a child of
+    `j`; the name the member has inside that directory does not become a key.
+    This is the mechanism behind the findings literal-names, alias-duplicate,
+    hardlink-alias-target and dangling-hardlink-ghost (their witnesses follow);
+    a change of this behaviour shows in the correspondence run. -/
+theorem member_through_symlink_literal (fs : FS) (p : Bytes) (ino : Inode) (s j : Nat) (fuel : Nat)
+    (hl : HL) (u : Bool)
+    (hroot : fs.get? dotP = some 0) (hrootDir : (fs.ino 0).kind = .dir)
+    (hp : validPath p = true) (hfresh : fs.get? p = none)
+    (hnl : ino.kind = .link → (fs.get? ino.link).isSome = true)
+    (hs : fs.get? (dirOf p) = some s) (hsl : s < fs.inodes.length) (hsk : (fs.ino s).kind = .sym)
+    (htc : validPath (fs.ino s).link = true) (htn : (fs.ino s).link ≠ p) (htd : (fs.ino s).link ≠ dotP)
+    (hj : fs.get? (fs.ino s).link = some j) (hjl : j < fs.inodes.length) (hjd : (fs.ino j).kind = .dir) :
+    ∃ fs', add (fuel + 1) fs hl p ino u = (fs', if u then alDel hl p else hl, none) ∧
+      (∀ k, fs'.get? k = if p = k then some fs.inodes.length else fs.get? k) ∧
+      fs' = (fs.pend p { ino with name := p }).linkChild j fs.inodes.length :=
+  ⟨_, add_through_symlink fuel hl u hroot hrootDir hp hfresh hnl hs hsl hsk htc htn htd hj hjl hjd,
+    fun k => through_symlink_keys k, rfl⟩
+
+/-- literal-names: {d/, b -> d, file b/c}. The lookup table (Glob, Sub) has the
+    keys b/c, b, d, "." and no key d/c, while the directory d lists c and
+    Stat("d/c") finds it: the listing and Glob disagree, and b/c is a name no
+    extraction creates. -/
+theorem literal_names_counterexample :
+    (Witness.viewOf Witness.msLiteral).map
+        (fun fs => (fs.lookup.map (·.1), fs.get? Witness.n_dc, Witness.idx fs Witness.n_dc, Witness.childNames fs 1)) =
+      some ([Witness.n_bc, Witness.n_b, Witness.n_d, dotP], none, some 3, [Witness.n_c]) :=
+  Witness.literal_names
+
+/-- alias-duplicate: {d/, b -> d, file b/c, file d/c}: the directory d has two
+    children named c. -/
+theorem alias_duplicate_counterexample :
+    (Witness.viewOf Witness.msAlias).map (fun fs => Witness.childNames fs 1) = some [Witness.n_c, Witness.n_c] :=
+  Witness.alias_duplicate
+
+/-- hardlink-alias-target: {d/, b -> d, file b/c, hc hard link to d/c}: hc does
+    not exist in the view although its target d/c does. -/
+theorem hardlink_alias_target_counterexample :
+    (Witness.viewOf Witness.msHlAlias).map (fun fs => (Witness.idx fs Witness.n_hc, Witness.idx fs Witness.n_dc)) =
+      some (none, some 3) :=
+  Witness.hardlink_alias_target
+
+/-- dangling-hardlink-ghost: {d/, b -> d, b/h hard link to a missing name}: the
+    directory d still lists h, but neither b/h nor d/h is a key and
+    Open("d/h") fails. -/
+theorem dangling_hardlink_ghost_counterexample :
+    (Witness.viewOf Witness.msGhost).map
+        (fun fs => (Witness.childNames fs 1, fs.get? Witness.n_bh, fs.get? Witness.n_dh, Witness.openErr fs Witness.n_dh)) =
+      some ([Witness.n_h], none, none, some .notexist) :=
+  Witness.dangling_hardlink_ghost
+
+/-- link-lexical: {d/e/, d/x = "D", x = "R", s -> d/e, t -> s/../x}: reading t
+    yields "R", the root's x; inside the root s/.. is d and t is d/x = "D". -/
+theorem link_lexical_counterexample :
+    (Witness.viewOf Witness.msLexical).map (fun fs => Witness.contentOf fs [116]) = some (some [82]) :=
+  Witness.link_lexical
+
+/-- sub-links: {file a/f = "data", a/h hard link to a/f}: the view reads "data"
+    through a/h; in Sub("a") the key h exists but Open("h") fails with
+    not-exist. -/
+theorem sub_links_counterexample :
+    ((Witness.viewOf Witness.msSubLinks).bind fun fs => (Witness.subOf fs [97]).map fun s =>
+        (Witness.contentOf fs [97, 47, 104], Witness.idx s [104], Witness.openErr s [104])) =
+      some (some [100, 97, 116, 97], some 3, some .notexist) :=
+  Witness.sub_links
+
+/-- sub-nested: {file a/b/c}: Sub("a") reads b/c, Sub("a") then Sub("b") is an
+    empty view. -/
+theorem sub_nested_counterexample :
+    ((Witness.viewOf Witness.msSubNested).bind fun fs => (Witness.subOf fs [97]).bind fun s1 =>
+        (Witness.subOf s1 [98]).map fun s2 =>
+          (Witness.contentOf s1 [98, 47, 99], s2.lookup.map (·.1), Witness.openErr s2 [99])) =
+      some (some [49], [], some .notexist) :=
+  Witness.sub_nested
+
+/-- stat-symlink-lstat: {d/, s -> d}: Stat("s") is a symbolic link, Open("s")
+    is the directory. -/
+theorem stat_symlink_lstat_counterexample :
+    (Witness.viewOf Witness.msLstat).map (fun fs => (Witness.statType fs [115], Witness.opensAsDir fs [115])) =
+      some (some .symlink, true) :=
+  Witness.stat_symlink_lstat
+
+/-- hardlink-stat-size: {file f (4 bytes), h hard link to f}: Stat("h") has
+    size 0, reading h yields 4 bytes. -/
+theorem hardlink_stat_size_counterexample :
+    (Witness.viewOf Witness.msHlSize).map
+        (fun fs => (Witness.statSize fs Witness.n_h, (Witness.contentOf fs Witness.n_h).map List.length)) =
+      some (some 0, some 4) :=
+  Witness.hardlink_stat_size
+
+/-- sparse-oversize-refused: a member whose header size (8193) exceeds its
+    segment (2560): Stat reports the size, Open fails with ErrInvalid. -/
+theorem sparse_oversize_counterexample :
+    (Witness.viewOf Witness.msOversize).map
+        (fun fs => (Witness.statSize fs [115, 112], Witness.openErr fs [115, 112])) =
+      some (some 8193, some .invalid) :=
+  Witness.sparse_oversize
 
 end ClairModel.Props.C11
